@@ -91,6 +91,18 @@ def build(p):
         if h != "c":
             ops.append(("checksnap", sn, h, "c += b changed %s" % h))
     ops.append(("noshare", "c", "b", "c and b after c += b"))
+    # the same for aggregators reloaded from JSON: they cannot be filled, but they are merged into with += just the same
+    ops += [("roundtrip", "r1", "a"), ("roundtrip", "r2", "b"), ("snap", "r1_0", "r1"), ("snap", "r2_0", "r2")]
+    for name, op in (("rc", ("copy", "rc", "r1")), ("rs", ("add", "rs", "r1", "r2")), ("rmu", ("mul", "rmu", "r1", p["f"])),
+                     ("rz", ("zero", "rz", "r1")), ("rr", ("roundtrip", "rr", "r1"))):
+        ops.append(op)
+        ops.append(("checksnap", "r1_0", "r1", "a pure operation (%s) changed its reloaded operand" % op[0]))
+        ops.append(("noshare", name, "r1", "result of %s and its reloaded operand" % op[0]))
+        ops.append(("noshare", name, "r2", "result of %s and its reloaded operand" % op[0]))
+    for victim, src in (("rc", "b"), ("rs", "a"), ("rmu", "r2"), ("rz", "b"), ("rr", "r2")):
+        ops.append(("iadd", victim, src))
+        ops.append(("checksnap", "r1_0", "r1", "%s += %s changed the reloaded aggregator %s was made from" % (victim, src, victim)))
+        ops.append(("checksnap", "r2_0", "r2", "%s += %s changed a reloaded operand" % (victim, src)))
     return {"ops": ops, "expect": expect}
 
 
